@@ -65,9 +65,14 @@ CHUNK_EXT = (
 # Pre-compiled regular expressions for use elsewhere
 ONLY_HEXDIG_RE = re.compile(("^" + HEXDIG + r"+\Z").encode("latin-1"))
 ONLY_DIGIT_RE = re.compile(("^" + DIGIT + r"+\Z").encode("latin-1"))
+# The value group includes the optional whitespace around the field value
+# (the caller strips it). Once SP / HTAB are stripped from both ends, what is
+# left is empty or starts and ends with a field-vchar, i.e. FIELD_VALUE. Spelled
+# this way there is no nested optional whitespace, so matching is linear in the
+# length of the line instead of quadratic for a long run of SP / HTAB.
 HEADER_FIELD_RE = re.compile(
     (
-        "^(?P<name>" + TOKEN + "):" + OWS + "(?P<value>" + FIELD_VALUE + ")" + OWS + r"\Z"
+        "^(?P<name>" + TOKEN + "):(?P<value>[ \t" + VCHAR + OBS_TEXT + r"]*)\Z"
     ).encode("latin-1")
 )
 QUOTED_PAIR_RE = re.compile(QUOTED_PAIR)
